@@ -225,7 +225,13 @@ impl Index for HnswIndex {
 
         // For Manhattan, request more candidates since L2 ordering != L1 ordering.
         // Reranking from a larger candidate set improves recall.
-        let search_k = if is_manhattan { k * 4 } else { k } + n_tombstones;
+        // Every candidate the graph search keeps (ef_search of them) is reranked, so that with
+        // ef_search >= number of vectors the L1-nearest cannot fall outside the window.
+        let search_k = if is_manhattan {
+            (k * 4).max(ef_search)
+        } else {
+            k
+        } + n_tombstones;
         let raw_results = inner.hnsw.search(&prepared_query, search_k, ef_search.max(search_k));
 
         // Map internal indices to tuple IDs using the stored mapping
